@@ -24,7 +24,7 @@ TheUniverse ==
   [par  |-> <<0, 1, 2, 1>>, diff |-> <<1, 1, 1, 1>>, time |-> <<0, 600, 1200, 700>>,
    btx  |-> <<<<1>>, <<2>>, <<3>>, <<4>>>>, tin |-> <<<<>>, <<>>, <<>>, <<>>>>,
    tout |-> <<<<[a |-> 0, v |-> 0]>>, <<[a |-> 1, v |-> 5]>>, <<[a |-> 1, v |-> 5]>>, <<[a |-> 2, v |-> 5]>>>>,
-   vsz  |-> <<100, 100, 100, 100>>]
+   vsz  |-> <<100, 100, 100, 100>>, h |-> <<0, 1, 2, 1>>]
 
 Cfg0 == [net |-> "regtest", thr |-> 2, api |-> TRUE, syncing |-> TRUE, gate |-> FALSE, lazy |-> TRUE, burn |-> FALSE,
          fees |-> [ub |-> 0, ur |-> 0, um |-> 0, bal |-> 0, balm |-> 0, pct |-> 0, pctm |-> 0,
